@@ -114,6 +114,21 @@ Proof.
   split; [vm_compute; repeat split; reflexivity|vm_compute; discriminate].
 Qed.
 
+(* track fields (Model/Track.v): the outcome of Unpack does not depend on what the object held, and after an accepted
+   Unpack neither do its components (FixedLength, which Unpack never touches, aside): the repairs F13 and F29 *)
+From Iso Require Import Model.Track Proofs.TrackIndependence.
+Theorem C10_track : forall k p t0 t1 data, tk_fixed t0 = tk_fixed t1 ->
+  snd (t_unpack k p t0 data) = snd (t_unpack k p t1 data) /\
+  (is_ok (snd (t_unpack k p t0 data)) = true -> fst (t_unpack k p t0 data) = fst (t_unpack k p t1 data)).
+Proof. exact t_unpack_independent. Qed.
+Print Assumptions C10_track.
+(* a Track2 object that held a track and then unpacks an empty one (length prefix 00) holds nothing (the F29 scenario) *)
+Example C10_ex_track :
+  let p := {| ps_kind := KString; ps_enc := EncASCII; ps_pref := PVar PfASCII 2; ps_len := 37; ps_pad := PadNone; ps_packer := PkDefault |} in
+  let used := {| tk_fixed := false; tk_fc := []; tk_pan := [x34; x31; x31; x31]; tk_sep := [x3d]; tk_name := []; tk_exp := Some [x32; x35; x31; x32]; tk_svc := [x31; x30; x31]; tk_dd := [x31] |} in
+  t_unpack T2 p used [x30; x30] = (t_empty, Ok 2).
+Proof. vm_compute. reflexivity. Qed.
+
 (* a tagged composite that was populated with both subfields and is then used to unpack only one of them shows
    exactly that one (the F12 scenario), and holds nothing of what it held before (F28: Unpack discards the
    values of the subfields that were set) *)
